@@ -201,7 +201,10 @@ WriteIntContract(ev) ==
     LET f == FmtOf(ev)
         r == ev.res
         ab == WriteAbnormal(ev)
-    IN  IF ab # << >> THEN ab
+    IN  IF ab # << >> THEN
+            \* no numeral at all (panic / fault / timeout although the buffer has the documented size) also breaks what C03
+            \* says about every integer, as for the float writers
+            ab \o (IF r.k # "ok" THEN << << "C03", "no output for an integer: " \o r.k >> >> ELSE << >>)
         ELSE IF r.k # "ok" THEN << >>
         ELSE LET w == IntWriteWhy(ev.v, Radix(f), f, r.out) IN
              V(w = "", "C03", w)
